@@ -469,6 +469,7 @@ func checkC10(c *Ctx) {
 	c10SenderSendsAll(c, "R-sender-sends-all")
 	c10NoBuiltinTimeouts(c, "R-no-transport-timeout")
 	c10AssertReaches(c)
+	c10StreamUnbounded(c, "R-stream-unbounded")
 	c10CallerMapUntouched(c, "R-caller-map-untouched")
 }
 
@@ -1132,13 +1133,21 @@ func c10NoBuiltinTimeouts(c *Ctx, rule string) {
 			owner := ir.TypeKey(f.Struct)
 			bad := (owner == "net/http.Client" && f.Name == "Timeout") ||
 				(owner == "net/http.Transport" && (f.Name == "ResponseHeaderTimeout"))
-			if !bad {
+			// ... nor on the server it starts itself: WriteTimeout bounds handler run time plus every write of the
+			// answer, and the answer to a POST is a stream that lasts as long as the tool runs
+			srv := owner == "net/http.Server" && (f.Name == "WriteTimeout" || f.Name == "ReadTimeout")
+			if !bad && !srv {
 				return
 			}
 			if cst, ok := st.Val.(*ssa.Const); ok && cst.Value != nil && cst.Value.String() == "0" {
 				return
 			}
 			n++
+			if srv {
+				c.R.Violate(rule, sprintf("%s.%s set in %s", owner, f.Name, fname(fn)), c.Pos(st.Pos()),
+					sprintf("%s gives the HTTP server the library starts a %s: it bounds the whole exchange, so a call whose handler runs (and streams notifications) longer than that is cut off — the remaining notifications and the result never arrive", fname(fn), f.Name))
+				return
+			}
 			c.R.Violate(rule, sprintf("%s.%s set in %s", owner, f.Name, fname(fn)), c.Pos(st.Pos()),
 				sprintf("%s gives the library's own HTTP client a %s: a POST that is answered as an event stream commits its headers with the first event, so a tool that is quiet for longer than that (or a call that simply takes long) fails although the caller's context set no such limit", fname(fn), f.Name))
 		})
@@ -1376,5 +1385,44 @@ func c10CallerMapUntouched(c *Ctx, rule string) {
 	}
 	if n < 5 {
 		c.R.Break("%s: only %d map parameters on the public surface", rule, n)
+	}
+}
+
+// ---------------------------------------------------------------- R-stream-unbounded
+// The answer to a call may be an event stream that carries every in-call notification before the result: its length is
+// the sum of all of them, not the size of one message. The clients therefore read an answer's body as net/http hands it
+// over — no library code replaces the Body of a response with a wrapper, and no stream reader is built on an
+// io.LimitReader — or a call with many (or large) notifications fails once the allowance is used up, the remaining
+// notifications and the result never arriving.
+func c10StreamUnbounded(c *Ctx, rule string) {
+	n := 0
+	for _, fn := range c.P.LibFns {
+		if !clientSide(c, fn) {
+			continue
+		}
+		ir.EachInstr(fn, func(_ *ssa.BasicBlock, _ int, in ssa.Instruction) {
+			switch x := in.(type) {
+			case *ssa.Store:
+				f, _, ok := ir.FieldOf(x.Addr)
+				if ok && f.Struct != nil && ir.TypeKey(f.Struct) == "net/http.Response" && f.Name == "Body" {
+					n++
+					c.R.Violate(rule, "response body replaced in "+fname(fn), c.Pos(x.Pos()),
+						sprintf("%s replaces the Body of an HTTP response with another reader: a wrapper that limits (or otherwise alters) what can be read applies to event-stream answers too, whose length is the sum of all in-call notifications — the call fails in the middle of its stream", fname(fn)))
+				}
+			case *ssa.Call:
+				if nm := ir.CallName(x); nm == "bufio.NewReader" || nm == "bufio.NewReaderSize" || nm == "bufio.NewScanner" {
+					if oc := originCall(x.Call.Args[0]); oc != nil {
+						if on := ir.CallName(oc); on == "io.LimitReader" || on == "net/http.MaxBytesReader" {
+							n++
+							c.R.Violate(rule, "stream reader on a limited body in "+fname(fn), c.Pos(x.Pos()),
+								sprintf("%s reads a stream through %s: an event-stream answer is as long as all its notifications together, so the limit ends calls that are merely talkative", fname(fn), on))
+						}
+					}
+				}
+			}
+		})
+	}
+	if n == 0 {
+		c.R.Hold(rule, "answers are read from the body net/http hands over", "", "no client-side store into http.Response.Body, no stream reader on a LimitReader")
 	}
 }
